@@ -22,6 +22,10 @@ CHECKS['C05'] = ('E4', 'model_checking',
     'Every event tree of the grammar (ordered trees, <=5/6 nodes, fan-out <=2, depth <=3; each edge fired by the plain handler or by a later generator step; leaves cancelled right after firing, nodes stopped or raising, also in generator steps; nested complete-requesting descendant; two simultaneous roots) is executed under the real run(); on every execution <name>_complete must be dispatched exactly once per requesting event, after the last handler activity of every non-cancelled member of the ghost causal closure, and within the horizon (quiescence is a state, so never is decidable).',
     'Trusted: ghost causality tree recorded by generated handlers (independent of Event.cause); driver = generate_events handler inside the real run().',
     'bounded-exhaustive event-tree enumeration executed under the real run() loop', 'DESIGN.md 6/C05')
+CHECKS['C06'] = ('E4', 'model_checking',
+    'Every acyclic caller/callee program over e0..e3 (callers: call by object, wait by name/object, two calls in sequence, call-then-yield, yield-then-call; callees: return, raise, generators yielding/raising before or after the first yield, two handlers, instance-dependent durations) x one or two callers in flight x both task stepping orders x time-outs {0,1,3} against callees lasting 0-4 loop iterations runs under the real run(). Every suspension must be resumed exactly once, after the callee finished, with the callee own result and error flag (or TimeoutError not before the given number of iterations); the caller event gets value/success/complete once; handler tables and task set at quiescence equal their initial contents; a quiescent state with a suspended caller is a deadlock verdict.',
+    'Trusted: ghost log; task order owned through an ordered drop-in for Manager._tasks (both orders enumerated); acyclic call structure.',
+    'bounded-exhaustive program enumeration under the real run(), task order as enumerated schedule', 'DESIGN.md 6/C06')
 NOT_YET = {}
 def main():
     props = [json.loads(l) for l in open(os.path.join(HERE, 'properties.jsonl'))]
